@@ -39,10 +39,11 @@ HOST_FAMILIES = {
     "idn": ["télérama.fr", "xn--tlrama-bvab.fr", "www.télérama.fr", "m.xn--tlrama-bvab.fr"],
     "ghio": ["github.io", "a.github.io", "b.a.github.io", "io"],
     "lang": ["lemonde.fr", "fr.lemonde.fr", "en-us.lemonde.fr", "m.lemonde.fr", "amp.lemonde.fr"],
+    "amp": ["lemonde.fr", "amp.lemonde.fr", "m.lemonde.fr", "mobile.lemonde.fr", "www2.lemonde.fr", "amp-lemonde.fr", "www.m.lemonde.fr"],
     "special": ["localhost", "127.0.0.1", "localhost.com", "x.intranet", "intranet", "lemonde.fr"],
     "platform": ["facebook.com", "m.facebook.com", "fr-fr.facebook.com", "www.youtube.com", "m.youtube.com", "youtu.be", "www.youtube-nocookie.com", "fb.me", "facebook.co.uk", "lemonde.fr"],
 }
-FAMILY_ORDER = ["fr", "couk", "idn", "ghio", "lang", "special", "platform"]
+FAMILY_ORDER = ["fr", "couk", "idn", "ghio", "lang", "special", "platform", "amp"]
 PLATFORM_SEEDS = ["/watch?v=abcdefghijk", "/abcdefghijk", "/someuser/posts/1234567890", "/story.php?story_fbid=12345&id=6789", "/channel/UCabcdefghijklmnopqrstuv",
                   "/", "", "/watch", "/watch?v=", "/watch?v=abc", "/v/abcdefghijk", "/embed/abcdefghijk", "/embed/", "/user/someone", "/c/someone/videos", "/@someone",
                   "/channel/", "/playlist?list=PLabcdefghijk", "/shorts/abcdefghijk", "/shorts/", "/watch?v=abcdefghijk&list=PLx#t=3", "/#v=abcdefghijk", "/attribution_link?u=%2Fwatch%3Fv%3Dabcdefghijk",
@@ -85,8 +86,12 @@ PATHS = ["", "/", "/a", "/a/", "/a/b", "/a//b", "/a/b/", "/a/index.html", "/a/./
          # the letter case of an escape that stays quoted
          "/../a", "/a/../../a/b", "/a%3Fb", "/a%3fb",
          # an escaped pipe is just text; a padded URL is its own spelling
-         "/a%7Cb", "/a%7cb", "/a "]
-QUERIES = ["", "x=1", "x=1&y=2", "y=2&x=1", "utm_source=z&x=1", "x=1&utm_source=z", "X=1", "hl=fr&x=1", "k=a|b", "k=%3d1", "k=%3D1"]
+         "/a%7Cb", "/a%7cb", "/a ",
+         # AMP markers and index pages
+         "/amp", "/a/amp/", "/a.amp.html", "/a.amp", "/a/index.php", "/index.html", "/a/default.aspx", "/a/b/..", "/a/b/.", "/a;x=1", "/a%2Fb", "/a%20b", "/a+b", "/é", "/%C3%A9"]
+QUERIES = ["", "x=1", "x=1&y=2", "y=2&x=1", "utm_source=z&x=1", "x=1&utm_source=z", "X=1", "hl=fr&x=1", "k=a|b", "k=%3d1", "k=%3D1",
+           # items the normaliser knows about, and malformed queries
+           "amp", "amp=1", "outputType=amp", "mode=amp&x=1", "m=1", "ref=bookmark", "fbclid=abc&x=1", "gl=us&x=1", "x=1&amp;y=2", "x=1?y=2", "x", "x=", "=1", "&", "x=1&", "x=1&&y=2", "x=1;y=2", "x=1&x=2", "x=2&x=1", "x=a%20b", "x=a+b"]
 FRAGMENTS = ["", "#f", "#/route", "#!/route"]
 PORTS = ["", ":80", ":443", ":8080", ":"]
 SCHEMES = ["http://", "https://", "", "HTTP://", "//"]
